@@ -21,8 +21,12 @@ MC_CFG = """SPECIFICATION Spec
 CONSTANTS
   LenSet = {%(lens)s}
   CoreSizes = {%(cores)s}
-  Hoods = {%(hoods)s}
+  HoodsL = {%(hoods)s}
+  HoodsR = {%(hoods)s}
+  Core2Sizes = {%(cores2)s}
+  Hoods2 = {%(hoods2)s}
   SubSizes = {%(subs)s}
+  SubStarts = {%(substarts)s}
   GeneSets = {%(genes)s}
 INVARIANT %(invariants)s
 """
@@ -174,6 +178,17 @@ def features(uni):
         feats.append("protocluster_over_origin_core_on_one_side")
     if any(_crosses(a["core"]) for a in protos):
         feats.append("protocluster_core_over_origin")
+    # the side of the origin the core lies on differs from what "core nearer the record end than the record start" says
+    for area in protos:
+        if _crosses(area["extent"]) and not _crosses(area["core"]):
+            start, end = area["core"]["parts"][0]
+            before_origin = start >= area["extent"]["parts"][0][0]
+            if before_origin != (uni["L"] - start < end):
+                feats.append("core_side_not_told_by_record_midpoint")
+    if any(_crosses(a["extent"]) for a in uni["areas"]):
+        feats.append("area_over_origin")
+    if len(uni["areas"]) >= 3:
+        feats.append("three_or_more_areas")
     if any(_crosses(a["extent"]) for a in subs):
         feats.append("subregion_over_origin")
     if any(_crosses(g["loc"]) for g in uni["genes"]):
@@ -271,8 +286,13 @@ def random_universe(rng):
         start = place(size)
         left = rng.randrange(0, length // 4)
         right = rng.randrange(0, length // 4)
-        if rng.random() < 0.1:
+        pick = rng.random()
+        if pick < 0.08:
             left = right = length
+        elif pick < 0.2:
+            left = rng.randrange(0, (3 * length) // 4)
+        elif pick < 0.32:
+            right = rng.randrange(0, (3 * length) // 4)
         core = arc(start, size)
         if circ:
             extent = arc(start - left, size + left + right)
@@ -310,19 +330,25 @@ def _mc(ctx, params, invariants, tag):
 def run(ctx):
     rng = random.Random(ctx.seed)
     if ctx.quick:
-        params = {"lens": "7", "cores": "1, 2", "hoods": "0, 2, 3", "subs": "3", "genes": "1, 2"}
-        randoms = 2500
+        params = {"lens": "7", "cores": "1, 2", "hoods": "0, 2, 5", "cores2": "1", "hoods2": "0, 2", "subs": "3",
+                  "substarts": "0, 2, 5, 6", "genes": "3"}
+        randoms = 4000
     else:
-        params = {"lens": "7, 8", "cores": "1, 2", "hoods": "0, 1, 2, 4", "subs": "2, 4", "genes": "0, 1, 2"}
-        randoms = 120000
-    mc = _mc(ctx, params, ["RefSatisfies", "RefRowsMinimal", "RegionsAreSpans"], "")
-    ctx.model(mc, "Layout_MC: reference layout satisfies the relation and is row-optimal on every region of every universe")
+        params = {"lens": "7, 8", "cores": "1, 2", "hoods": "0, 2, 5", "cores2": "1", "hoods2": "0, 2, 3", "subs": "2, 4",
+                  "substarts": "0, 1, 2, 3, 4, 5, 6, 7", "genes": "3"}
+        randoms = 150000
+    mc = _mc(ctx, params, ["RefSatisfiesAndMinimal", "ImplRepairedSatisfies"], "")
+    ctx.model(mc, "Layout_MC: on every region of every universe the reference layout satisfies the relation and is row-optimal, and "
+                  "the implementation-shaped model of adjust_cross_origin_area with the repaired branches satisfies the relation")
     for invariant, what in (("NoShiftAccepted", "layout without the +L shift after the origin"),
                             ("OneRowAccepted", "all areas on one row"),
-                            ("DropLinkedAccepted", "second half of a split area dropped")):
+                            ("DropLinkedAccepted", "second half of a split area dropped"),
+                            ("ImplAsFoundSatisfies", "implementation-shaped model with the branches as found (hasattr core test, "
+                                                     "midpoint guess): TLC exhibits P19 on the model")):
         neg = _mc(ctx, params, [invariant], "_" + invariant)
         ctx.expect_violation(neg, invariant, f"negative control: {what}")
-    strict = _mc(ctx, dict(params, lens="7", hoods="0, 2", genes="1"), ["NoShiftRejectedWhereSpanning"], "_strict")
+    strict = _mc(ctx, dict(params, lens="7", hoods="0, 2", hoods2="2", substarts="0, 5", genes="1"),
+                 ["NoShiftRejectedWhereSpanning"], "_strict")
     ctx.model(strict, "Layout_MC: the unshifted layout is rejected on every region over the origin (small universes)")
 
     cases = []
@@ -376,12 +402,12 @@ def run(ctx):
     for ident in sorted(samples):
         ctx.sample(samples[ident], limit=6)
     ctx.exhaustive = True
-    ctx.rule = ("TLC enumerates every record of the listed lengths (line and ring) holding no, one or two protoclusters (every core "
-                "arc of the listed sizes incl. over the origin, neighbourhood of every listed width: none / reaching over the "
-                "origin on one side / whole record; unordered pairs), no or one subregion (every arc of the listed sizes incl. over "
-                "the origin, or the whole record) and one of the gene sets (plain genes incl. one over the origin and one reverse; "
-                "one core gene per protocluster annotated for both products, so overlapping cores form chemical hybrids, plus a "
-                "reverse gene over the origin); every such record is built for real and every region of it laid out by "
+    ctx.rule = ("TLC enumerates every record of the listed lengths (line and ring) holding no, one or two protoclusters (first: every "
+                "core arc of the listed sizes incl. over the origin with independent left and right neighbourhoods of every listed "
+                "width - none / reaching over the origin on either side / whole record; second: every listed core with a symmetric "
+                "neighbourhood), no or one subregion (arcs of the listed sizes and starts incl. over the origin, or the whole record) "
+                "and the gene set (plain genes incl. one over the origin and one reverse, one core gene per protocluster annotated "
+                "for both products so that overlapping cores form chemical hybrids, a reverse gene over the origin); every such record is built for real and every region of it laid out by "
                 "build_area_rows and js.convert_regions; plus seeded random records of 30-150 bases (1-5 areas with independent "
                 "left/right neighbourhoods, 1-6 genes, areas drawn to the origin half of the time); non-trivial = the record has "
                 "a region over the origin or a whole-record region of a ring")
